@@ -87,6 +87,43 @@ MUTS = {
     if flags.is_change_notification_enabled():
       for u in updates:
         self._notify_field_updates([u])"""),
+ 'N19-silent-rebind-compacts-lists-through-on_change (seeded C09-8)': (B, """    else:
+      self._reset_content_caches(updates)
+    return self""", """    else:
+      self._reset_content_caches(updates)
+      done = set()
+      for u in updates:
+        if (isinstance(u.target, Symbolic.ListType) and pg_typing.MISSING_VALUE == u.new_value
+            and id(u.target) not in done):
+          done.add(id(u.target))
+          u.target._on_change({})
+    return self"""),
+ 'N20-no-reentry-into-a-running-handler (seeded C09-9)': (B, """      target._on_change(updates)   # pylint: disable=protected-access
+""", """      if not getattr(target, '_sym_handling_change', False):
+        target._set_raw_attr('_sym_handling_change', True)
+        try:
+          target._on_change(updates)   # pylint: disable=protected-access
+        finally:
+          target._set_raw_attr('_sym_handling_change', False)
+"""),
+ 'N21-nested-events-queued-after-the-outer-dispatch': (B, """    for target, updates in sorted(per_target_updates.values(),
+                                  key=lambda x: x[0].sym_path,
+                                  reverse=True):""", """    if getattr(Symbolic, '_c09_dispatching', False):
+      Symbolic._c09_queue.append((self, field_updates, notify_parents))
+      return
+    Symbolic._c09_dispatching = True
+    Symbolic._c09_queue = []
+    try:
+      self._c09_dispatch(per_target_updates, notify_parents)
+    finally:
+      Symbolic._c09_dispatching = False
+    for node, ups, npar in Symbolic._c09_queue:
+      node._notify_field_updates(ups, npar)
+
+  def _c09_dispatch(self, per_target_updates, notify_parents):
+    for target, updates in sorted(per_target_updates.values(),
+                                  key=lambda x: x[0].sym_path,
+                                  reverse=True):"""),
  'N14-pop-notifies-twice': (L, """    with flags.allow_writable_accessors(True):
       del self[index]
     return value""", """    with flags.allow_writable_accessors(True):
